@@ -254,4 +254,34 @@ theorem second_write_wins (Γ : CustomEnv) (chk : Bool) (B : Base) (hB : B.WF) (
   simp only [List.map_cons, List.map_nil, Step.toOp, hfd, hi]
   exact rewrite_same_field _ _ _ _ _ _ hinit
 
+/-- single-range writes at element offsets that keep the two intervals apart are `Apart` -/
+theorem apart_offsets (r q : Rng) (off off' v w : Nat)
+    (h : r.lo + off + r.len ≤ q.lo + off' ∨ q.lo + off' + q.len ≤ r.lo + off) : Apart ⟨[r], off, v⟩ ⟨[q], off', w⟩ := by
+  intro p hp
+  simp only [written, Rng.covers] at hp ⊢
+  by_cases hc : (decide (r.lo + off ≤ p) && decide (p < r.lo + off + r.len)) = true
+  · by_cases hc' : (decide (q.lo + off' ≤ p) && decide (p < q.lo + off' + q.len)) = true
+    · simp only [Bool.and_eq_true, decide_eq_true_eq] at hc hc'
+      omega
+    · simp [hc']
+  · simp [hc] at hp
+
+/-- **different elements of a contiguous array whose stride is at least the element width never share a position**, so
+    writes to them commute (`disjoint_perm` / `history_order_independent`) -/
+theorem apart_elements (fd : FieldDef) (r : Rng) (st i j v w : Nat) (hr : fd.ranges = [r]) (hs : fd.stride = some st)
+    (hst : r.len ≤ st) (hij : i ≠ j) :
+    Apart (Step.toOp { fd := fd, i := i, fv := .uint 0 0, v := v }) (Step.toOp { fd := fd, i := j, fv := .uint 0 0, v := w }) := by
+  simp only [Step.toOp, hr, hs]
+  apply apart_offsets
+  simp only [offOf]
+  rcases Nat.lt_or_gt_of_ne hij with h | h
+  · left
+    have : (i + 1) * st ≤ j * st := Nat.mul_le_mul_right _ h
+    rw [Nat.add_mul] at this
+    omega
+  · right
+    have : (j + 1) * st ≤ i * st := Nat.mul_le_mul_right _ h
+    rw [Nat.add_mul] at this
+    omega
+
 end Bb.C12
